@@ -195,9 +195,71 @@ func extractLayout(info *types.Info, body ast.Node) []layoutOp {
 		}
 		return hi
 	}
+	// append cursors: buf := make([]byte, 0, N) / var buf []byte start at 0; every
+	// buf = binary.<Order>.AppendUintNN(buf, v) writes at the cursor and advances it
+	cursor := map[types.Object]int{}
+	startCursor := func(lhs ast.Expr, rhs ast.Expr) {
+		id, ok := lhs.(*ast.Ident)
+		if !ok {
+			return
+		}
+		obj := info.ObjectOf(id)
+		if obj == nil {
+			return
+		}
+		if rhs == nil {
+			cursor[obj] = 0
+			return
+		}
+		if ce, ok := ast.Unparen(rhs).(*ast.CallExpr); ok {
+			if fid, ok := ce.Fun.(*ast.Ident); ok && fid.Name == "make" && len(ce.Args) >= 2 {
+				if n, c := constInt(info, ce.Args[1]); c && n == 0 {
+					cursor[obj] = 0
+				}
+			}
+		}
+	}
 	ast.Inspect(body, func(n ast.Node) bool {
 		switch x := n.(type) {
+		case *ast.DeclStmt:
+			if gd, ok := x.Decl.(*ast.GenDecl); ok && gd.Tok == token.VAR {
+				for _, sp := range gd.Specs {
+					if vs, ok := sp.(*ast.ValueSpec); ok && len(vs.Values) == 0 {
+						if at, ok := vs.Type.(*ast.ArrayType); ok && at.Len == nil {
+							for _, nm := range vs.Names {
+								startCursor(nm, nil)
+							}
+						}
+					}
+				}
+			}
 		case *ast.CallExpr:
+			// clear(buf[lo:hi]) zeroes the bytes lo..hi-1
+			if fid, ok := x.Fun.(*ast.Ident); ok && fid.Name == "clear" && len(x.Args) == 1 {
+				if _, isBuiltin := info.Uses[fid].(*types.Builtin); isBuiltin {
+					if buf, lo, hi, ok2 := sliceRange(info, x.Args[0]); ok2 && lo >= 0 && hi >= lo {
+						for k := lo; k < hi; k++ {
+							ops = append(ops, layoutOp{Kind: "bytestore", Lo: k, Hi: k + 1, Value: "const:0", Pos: x.Pos(), Buf: buf})
+						}
+					}
+				}
+			}
+			if order, m, ok := byteOrderCall(info, x); ok && strings.HasPrefix(m, "AppendUint") && len(x.Args) == 2 {
+				w := width(m)
+				switch a := ast.Unparen(x.Args[0]).(type) {
+				case *ast.Ident:
+					if a.Name == "nil" {
+						ops = append(ops, layoutOp{Kind: "put", Lo: 0, Hi: w / 8, Width: w, Order: order, Value: valueDesc(info, x.Args[1]), Pos: x.Pos(), Buf: "nil"})
+					} else if obj := info.ObjectOf(a); obj != nil {
+						if cur, known := cursor[obj]; known {
+							ops = append(ops, layoutOp{Kind: "put", Lo: cur, Hi: cur + w/8, Width: w, Order: order, Value: valueDesc(info, x.Args[1]), Pos: x.Pos(), Buf: a.Name})
+							cursor[obj] = cur + w/8
+						} else {
+							ops = append(ops, layoutOp{Kind: "put", Lo: -1, Hi: -1, Width: w, Order: order, Value: valueDesc(info, x.Args[1]), Pos: x.Pos(), Buf: a.Name})
+						}
+					}
+				}
+			}
 			order, m, ok := byteOrderCall(info, x)
 			if ok && strings.HasPrefix(m, "PutUint") && len(x.Args) == 2 {
 				buf, lo, hi, ok2 := sliceRange(info, x.Args[0])
@@ -210,6 +272,9 @@ func extractLayout(info *types.Info, body ast.Node) []layoutOp {
 			for i, rhs := range x.Rhs {
 				if i >= len(x.Lhs) {
 					break
+				}
+				if x.Tok == token.DEFINE {
+					startCursor(x.Lhs[i], rhs)
 				}
 				// lhs = binary.LE.UintN(buf[lo:hi])
 				if ce, ok := ast.Unparen(rhs).(*ast.CallExpr); ok {
